@@ -31,6 +31,14 @@ def observed_cfgs(tier):
             if tier == "quick" and (gi + si) % 3 != 0:
                 continue
             out.append((f"{g}|{json.dumps(kw, sort_keys=True)}|seed={seed}", dict(gen=g, kw=kw, seed=seed, grid=3 + (gi % 2), n=3)))
+    # fractional generator arguments (resolved against the grid size inside the generator, never in the configuration)
+    out.append(("gen_dfs|fractional", dict(gen="gen_dfs", kw=dict(accessible_cells=0.5, max_tree_depth=0.75), seed=13, grid=4, n=3)))
+    out.append(("gen_dfs_percolation|fractional", dict(gen="gen_dfs_percolation", kw=dict(p=0.2, accessible_cells=0.6), seed=14, grid=3, n=3)))
+    # many mazes from a small output space that is not fully connected: the same connection structure recurs (within the dataset and in
+    # its neighbours' datasets) with different visited-cell sets - anything remembered per connection structure shows here
+    out.append(("gen_dfs|recurring_outputs", dict(gen="gen_dfs", kw=dict(accessible_cells=3), seed=21, grid=3, n=40)))
+    out.append(("gen_dfs|recurring_outputs_depth", dict(gen="gen_dfs", kw=dict(max_tree_depth=2), seed=22, grid=3, n=40)))
+    out.append(("gen_dfs_percolation|recurring_outputs", dict(gen="gen_dfs_percolation", kw=dict(p=0.05, accessible_cells=3), seed=23, grid=3, n=30)))
     # endpoint options and filters (from_config must apply them in order)
     out.append(("gen_dfs|endpoints", dict(gen="gen_dfs", kw={}, seed=11, grid=4, n=3,
                                           endpoint_kwargs=dict(deadend_start=True, endpoints_not_equal=True))))
@@ -182,9 +190,14 @@ def observe(specs, ref, hist, res, base_state):
         res.ev()
         rd = dict(hist=list(hist), label=label, spec=spec)
         cfg = make_cfg(spec, with_filters=False)
+        cfg_text = json.dumps(cfg.serialize(), sort_keys=True, default=str)
+        kw_before = json.dumps(spec["kw"], sort_keys=True)
         # constructing the cfg is itself part of the observation (it is what a user does); state was restored before it
         try:
             ds = MazeDataset.generate(cfg)
+            if json.dumps(cfg.serialize(), sort_keys=True, default=str) != cfg_text or json.dumps(cfg.maze_ctor_kwargs, sort_keys=True) != kw_before:
+                res.fail(f"C04|generate|{env_class(hist)}|cfg_modified", f"generate({label}) modified the configuration object passed in: maze_ctor_kwargs "
+                         f"{kw_before} -> {json.dumps(cfg.maze_ctor_kwargs, sort_keys=True)}", rd)
         except Exception as e:
             if ref[label].get("raises") == type(e).__name__:
                 continue
